@@ -133,6 +133,14 @@ def _child_solve(assertions, timeout_s, model_vars, tactic):
     return res, model, reason
 
 
+def _child_solve2(lin, assertions, timeout_s, model_vars, tactic):
+    if lin is not None:
+        r, _, _ = _child_solve(lin, min(3.0, timeout_s), {}, None)
+        if r == 'unsat':
+            return 'unsat-linabs', None, ''
+    return _child_solve(assertions, timeout_s, model_vars, tactic)
+
+
 def run_forked(fn, args, wall_s):
     """Run fn(*args) in a forked child, kill it after wall_s seconds.  -> (ok, value|reason)"""
     r, w = os.pipe()
@@ -309,21 +317,22 @@ def check_sat(assertions, timeout_s=20.0, model_vars=None, use_cvc5=True, tactic
         return Result('unsat', None, 0.0, 'syntactic', nassert=len(assertions))
     reason = ''
     budget = timeout_s
-    # stage 0: linear abstraction (products of non-constants as opaque variables): UNSAT is conclusive
+    # stage 0 (inside the first child): linear abstraction, products of non-constants as opaque variables;
+    # UNSAT of the abstraction is conclusive
+    lin = None
     if any(_nonlinear(a) for a in assertions):
         try:
             lin = linear_abstraction(assertions)
             if any(a is E.FALSE for a in lin):
                 return Result('unsat', None, time.time() - t0, 'syntactic-linabs', nassert=len(assertions))
-            ok, val = run_forked(_child_solve, (lin, min(5.0, timeout_s), {}, None), min(5.0, timeout_s) + 2)
-            if ok and val[0] == 'unsat':
-                return Result('unsat', None, time.time() - t0, 'z3-linear-abstraction', nassert=len(assertions))
         except RecursionError:
-            pass
+            lin = None
     for tac in tactics:
-        ok, val = run_forked(_child_solve, (assertions, budget, model_vars, tac), budget + 3)
+        ok, val = run_forked(_child_solve2, (lin if tac is None else None, assertions, budget, model_vars, tac), budget + 6)
         if ok:
             res, model, why = val
+            if res == 'unsat-linabs':
+                return Result('unsat', None, time.time() - t0, 'z3-linear-abstraction', nassert=len(assertions))
             if res in ('sat', 'unsat'):
                 return Result(res, model, time.time() - t0, 'z3' + ('' if tac is None else ':' + tac), nassert=len(assertions))
             reason = 'z3%s: %s' % ('' if tac is None else ':' + tac, why)
